@@ -363,9 +363,11 @@ class Ncp:
     def h_setConfigurationValue(self, req, configId, value):
         cid = int(configId)
         if cid in self.config_reject:
-            self.config_writes.append((cid, int(value), "INVALID_CALL"))
-            self.write_log.append(("config", cid, int(value), "INVALID_CALL"))
-            return (St("INVALID_CALL"),)
+            # a set rejects with INVALID_CALL; a dict names the status per id (NO_BUFFERS = EzspStatus.ERROR_OUT_OF_MEMORY, ...)
+            stn = self.config_reject[cid] if isinstance(self.config_reject, dict) else "INVALID_CALL"
+            self.config_writes.append((cid, int(value), stn))
+            self.write_log.append(("config", cid, int(value), stn))
+            return (St(stn),)
         self.config[cid] = int(value)
         self.config_writes.append((cid, int(value), "OK"))
         self.write_log.append(("config", cid, int(value), "OK"))
